@@ -344,8 +344,14 @@ def _run_sync(case, scratch):
         flags = {"stopped": False}
 
         def stop_now():
+            # the application thread calls stop() while the timer thread is inside this save: stop() gets as far as
+            # it can (saves exclude each other since fix D23: its final save waits for this one) and is joined after
+            # the step
             flags["stopped"] = True
-            gw.stop()
+            th = threading.Thread(target=gw.stop)
+            th.start()
+            th.join(0.3)
+            flags["stop_thread"] = th
         h.stop_now = stop_now
 
         def armed():
@@ -384,6 +390,11 @@ def _run_sync(case, scratch):
                 for p in reversed(patches):
                     p.stop()
                 h.ip.active = False
+            th = flags.pop("stop_thread", None)
+            if th is not None:
+                th.join(30)
+                if th.is_alive():
+                    raise RuntimeError("stop() called during a scheduled save did not return within 30 s after that save ended")
             stopped = stopped or flags["stopped"]
             obs.append(_obs(h, h.outcome(n0), h.ip.calls, armed() or not started, stopped, escaped))
         return obs
@@ -421,8 +432,15 @@ def _run_async(case, scratch):
 
         def stop_now():
             # called on the executor thread in the middle of a save: run stop() on the loop
+            # stop() gets as far as it can while this save is under way (since fix D23 its final save waits for this
+            # one); it is awaited after the step
             flags["stopped"] = True
-            asyncio.run_coroutine_threadsafe(gw.stop(), loop).result(timeout=30)
+            import concurrent.futures
+            fut = asyncio.run_coroutine_threadsafe(gw.stop(), loop)
+            try:
+                fut.result(timeout=0.3)
+            except concurrent.futures.TimeoutError:
+                flags["stop_future"] = fut
         h.stop_now = stop_now
 
         async def main():
@@ -474,6 +492,9 @@ def _run_async(case, scratch):
                     for p in reversed(patches):
                         p.stop()
                     h.ip.active = False
+                fut = flags.pop("stop_future", None)
+                if fut is not None:
+                    await asyncio.wait_for(asyncio.wrap_future(fut), 30)
                 while h.inflight:                        # an orphaned executor save (stop during a save)
                     await real_sleep(0.001)
                 stopped = stopped or flags["stopped"]
